@@ -156,10 +156,15 @@ class RW1C(FieldAction):
     def elaborate(self, platform):
         m = Module()
 
-        for i, storage_bit in enumerate(self._storage):
-            with m.If(self.port.w_stb & self.port.w_data[i]):
+        # Cast to plain values, so that shapes that are not bit-indexable (e.g. enums) work too.
+        storage = Value.cast(self._storage)
+        w_data  = Value.cast(self.port.w_data)
+        set_    = Value.cast(self.set)
+
+        for i, storage_bit in enumerate(storage):
+            with m.If(self.port.w_stb & w_data[i]):
                 m.d.sync += storage_bit.eq(0)
-            with m.If(self.set[i]):
+            with m.If(set_[i]):
                 m.d.sync += storage_bit.eq(1)
 
         m.d.comb += [
@@ -210,10 +215,15 @@ class RW1S(FieldAction):
     def elaborate(self, platform):
         m = Module()
 
-        for i, storage_bit in enumerate(self._storage):
-            with m.If(self.clear[i]):
+        # Cast to plain values, so that shapes that are not bit-indexable (e.g. enums) work too.
+        storage = Value.cast(self._storage)
+        w_data  = Value.cast(self.port.w_data)
+        clear   = Value.cast(self.clear)
+
+        for i, storage_bit in enumerate(storage):
+            with m.If(clear[i]):
                 m.d.sync += storage_bit.eq(0)
-            with m.If(self.port.w_stb & self.port.w_data[i]):
+            with m.If(self.port.w_stb & w_data[i]):
                 m.d.sync += storage_bit.eq(1)
 
         m.d.comb += [
